@@ -219,12 +219,17 @@ JLS_API int32_t jls_rd_fsr_f32(struct jls_rd_s * self, uint16_t signal_id, int64
     return jls_core_fsr_f32(&self->core, signal_id, start_sample_id, data, data_length);
 }
 
+// A summary entry whose mean is NaN covers skipped (gap) samples only: it contributes nothing.
 static inline void f32_to_stats(struct jls_statistics_s * stats, const float * data, int64_t count) {
+    if (!isfinite(data[JLS_SUMMARY_FSR_MEAN])) {
+        jls_statistics_reset(stats);
+        return;
+    }
     stats->k = count;
     stats->mean = data[JLS_SUMMARY_FSR_MEAN];
     stats->min = data[JLS_SUMMARY_FSR_MIN];
     stats->max = data[JLS_SUMMARY_FSR_MAX];
-    if (count > 1) {
+    if ((count > 1) && isfinite(data[JLS_SUMMARY_FSR_STD])) {
         stats->s = ((double) data[JLS_SUMMARY_FSR_STD]) * data[JLS_SUMMARY_FSR_STD] * (count - 1);
     } else {
         stats->s = 0.0;
@@ -232,6 +237,12 @@ static inline void f32_to_stats(struct jls_statistics_s * stats, const float * d
 }
 
 static inline void stats_to_f64(double * data, struct jls_statistics_s * stats) {
+    if (0 == stats->k) {  // no samples, like the summary entry of a skipped block
+        for (int i = 0; i < JLS_SUMMARY_FSR_COUNT; ++i) {
+            data[i] = NAN;
+        }
+        return;
+    }
     data[JLS_SUMMARY_FSR_MEAN] = stats->mean;
     data[JLS_SUMMARY_FSR_MIN] = stats->min;
     data[JLS_SUMMARY_FSR_MAX] = stats->max;
@@ -239,11 +250,15 @@ static inline void stats_to_f64(double * data, struct jls_statistics_s * stats) 
 }
 
 static inline void f64_to_stats(struct jls_statistics_s * stats, const double * data, int64_t count) {
+    if (!isfinite(data[JLS_SUMMARY_FSR_MEAN])) {
+        jls_statistics_reset(stats);
+        return;
+    }
     stats->k = count;
     stats->mean = data[JLS_SUMMARY_FSR_MEAN];
     stats->min = data[JLS_SUMMARY_FSR_MIN];
     stats->max = data[JLS_SUMMARY_FSR_MAX];
-    if (count > 1) {
+    if ((count > 1) && isfinite(data[JLS_SUMMARY_FSR_STD])) {
         stats->s = ((double) data[JLS_SUMMARY_FSR_STD]) * data[JLS_SUMMARY_FSR_STD] * (count - 1);
     } else {
         stats->s = 0.0;
@@ -479,11 +494,7 @@ int32_t jls_core_fsr_statistics(struct jls_core_s * self, uint16_t signal_id,
     double v_min = DBL_MAX;
     double v_max = -DBL_MAX;
     double v_var = 0.0;
-    double mean_scale = 1.0 / increment;
-    double var_scale = 1.0;
-    if (increment > 1) {
-        var_scale = 1.0 / (increment - 1.0);
-    }
+    int64_t v_count = 0;  // samples that are present (NaN = skipped sample of a float signal)
     double v;
 
     while (data_length > 0) {
@@ -496,23 +507,37 @@ int32_t jls_core_fsr_statistics(struct jls_core_s * self, uint16_t signal_id,
             src_end = &self->f64_sample_buf->start[s->header.entry_count];
         }
         v = *src++;
-        v_mean += v;
-        if (v < v_min) {
-            v_min = v;
-        }
-        if (v > v_max) {
-            v_max = v;
+        if (isfinite(v)) {
+            ++v_count;
+            v_mean += v;
+            if (v < v_min) {
+                v_min = v;
+            }
+            if (v > v_max) {
+                v_max = v;
+            }
         }
         self->f64_stats_buf->start[buf_offset++] = v;
 
         if (buf_offset >= increment) {
-            v_mean *= mean_scale;
-            v_var = 0.0;
-            for (int64_t i = 0; i < increment; ++i) {
-                double v_diff = self->f64_stats_buf->start[i] - v_mean;
-                v_var += v_diff * v_diff;
+            if (0 == v_count) {
+                v_mean = NAN;
+                v_min = NAN;
+                v_max = NAN;
+                v_var = NAN;
+            } else {
+                v_mean /= (double) v_count;
+                v_var = 0.0;
+                for (int64_t i = 0; i < increment; ++i) {
+                    if (isfinite(self->f64_stats_buf->start[i])) {
+                        double v_diff = self->f64_stats_buf->start[i] - v_mean;
+                        v_var += v_diff * v_diff;
+                    }
+                }
+                if (v_count > 1) {
+                    v_var /= (double) (v_count - 1);
+                }
             }
-            v_var *= var_scale;
 
             data[JLS_SUMMARY_FSR_MEAN] = v_mean;
             data[JLS_SUMMARY_FSR_MIN] = v_min;
@@ -521,6 +546,7 @@ int32_t jls_core_fsr_statistics(struct jls_core_s * self, uint16_t signal_id,
             data += JLS_SUMMARY_FSR_COUNT;
 
             buf_offset = 0;
+            v_count = 0;
             v_mean = 0.0;
             v_min = DBL_MAX;
             v_max = -DBL_MAX;
